@@ -13,7 +13,12 @@ import (
 // Rng is splitmix64: every random choice of a run derives from one state.
 type Rng struct{ s uint64 }
 
-func NewRng(seed uint64) *Rng { return &Rng{s: seed*0x9E3779B97F4A7C15 + 0x1234567} }
+func NewRng(seed uint64) *Rng {
+	// scramble the seed so that neighbouring seeds give unrelated streams
+	r := &Rng{s: seed ^ 0x5DEECE66D1234567}
+	r.s = r.Next() ^ (seed << 32)
+	return r
+}
 
 func (r *Rng) Next() uint64 {
 	r.s += 0x9E3779B97F4A7C15
